@@ -19,6 +19,8 @@ import Cte.Model.Bdl
 import Cte.Model.Convert
 import Cte.Model.Placement
 import Cte.Model.HulcAux
+import Cte.Model.BdlData
+import Cte.Model.Pipeline
 import Cte.Gen.Schema
 open Cte
 
@@ -431,6 +433,62 @@ def opTbl (req : J) : J :=
   | .ok t => J.obj [("ok", AuxIO.tblJ t)]
   | .error e => J.obj [("err", J.str e)]
 
+namespace DataIO
+open Cte.BdlData Cte.Bdl
+def js (s : Str) : J := J.str (String.ofList s)
+def jos (o : Option Str) : J := match o with | some s => js s | none => J.null
+def jt (t : TNum) : J := match t with | some r => J.ofRat r 9 | none => J.str "nonfinite"
+def jot (t : Option TNum) : J := match t with | some x => jt x | none => J.null
+def jts (l : List TNum) : J := J.arr (l.map jt)
+def jots (l : Option (List TNum)) : J := match l with | some x => jts x | none => J.null
+def jpoly (p : Polygon) : J := J.arr (p.pts.map jts)
+
+def dataJ (d : Data) : J :=
+  J.obj [
+    ("materials", J.arr (d.materials.map (fun kv => J.obj [("key", js kv.1), ("name", js kv.2.name), ("group", js kv.2.group),
+        ("properties", match kv.2.properties with
+          | some (th, c, de, sh, vd) => J.arr [jot th, jt c, jt de, jt sh, jot vd]
+          | none => J.null), ("resistance", jot kv.2.resistance)]))),
+    ("glasses", J.arr (d.glasses.map (fun kv => J.obj [("key", js kv.1), ("name", js kv.2.name), ("group", js kv.2.group), ("conductivity", jt kv.2.conductivity), ("g_gln", jt kv.2.gGln)]))),
+    ("frames", J.arr (d.frames.map (fun kv => J.obj [("key", js kv.1), ("name", js kv.2.name), ("group", js kv.2.group), ("conductivity", jt kv.2.conductivity),
+        ("absorptivity", jt kv.2.absorptivity), ("width", jt kv.2.width)]))),
+    ("wallcons", J.arr (d.wallcons.map (fun kv => J.obj [("key", js kv.1), ("name", js kv.2.name), ("group", js kv.2.group), ("material", J.arr (kv.2.material.map js)),
+        ("thickness", jts kv.2.thickness), ("absorptance", jt kv.2.absorptance)]))),
+    ("wincons", J.arr (d.wincons.map (fun kv => J.obj [("key", js kv.1), ("name", js kv.2.name), ("group", js kv.2.group), ("glass", js kv.2.glass), ("frame", js kv.2.frame),
+        ("framefrac", jt kv.2.framefrac), ("infcoeff", jt kv.2.infcoeff), ("deltau", jt kv.2.deltau), ("gglshwi", jot kv.2.gglshwi)]))),
+    ("spaces", J.arr (d.spaces.map (fun s => J.obj [("name", js s.name), ("stype", js s.stype), ("polygon", jpoly s.polygon), ("height", jt s.height), ("x", jt s.x), ("y", jt s.y),
+        ("z", jt s.z), ("angle", jt s.angle), ("insidete", J.bool s.insidete), ("floor", js s.floor), ("power", jt s.power), ("veei_obj", jt s.veeiObj), ("veei_ref", jt s.veeiRef),
+        ("spacetype", js s.spacetype), ("spaceconds", js s.spaceconds), ("systemconds", js s.systemconds), ("floor_multiplier", jt s.floorMultiplier),
+        ("multiplier", jt s.multiplier), ("ismultiplied", J.bool s.ismultiplied), ("airchanges_h", jot s.airchanges)]))),
+    ("walls", J.arr (d.walls.map (fun w => J.obj [("name", js w.name), ("space", js w.space), ("cons", js w.cons), ("location", jos w.location), ("x", jt w.x), ("y", jt w.y),
+        ("z", jt w.z), ("angle", match w.angle with | some a => jt a | none => J.str "computed"), ("tilt", jt w.tilt),
+        ("polygon", match w.polygon with | some p => jpoly p | none => J.null), ("bounds", J.str w.bounds), ("nextto", jos w.nextto)]))),
+    ("windows", J.arr (d.windows.map (fun w => J.obj [("name", js w.name), ("wall", js w.wall), ("cons", js w.cons), ("x", jt w.x), ("y", jt w.y), ("height", jt w.height),
+        ("width", jt w.width), ("setback", jt w.setback), ("coefs", jots w.coefs), ("overhang", jots w.overhang), ("left_fin", jots w.leftFin), ("right_fin", jots w.rightFin)]))),
+    ("thermal_bridges", J.arr (d.tbs.map (fun t => J.obj [("name", js t.name), ("length", jot t.length), ("psi", jt t.psi), ("frsi", jt t.frsi), ("tbtype", js t.tbtype)]))),
+    ("shadings", J.arr (d.shadings.map (fun s => J.obj [("name", js s.name), ("tran", jt s.tran), ("refl", jt s.refl), ("rect", jots s.rect),
+        ("verts", match s.verts with | some v => J.arr (v.map jts) | none => J.null)]))),
+    ("schedules", J.arr (d.schedules.map (fun s => match s with
+        | .day n k v => J.obj [("kind", J.str "day"), ("name", js n), ("type", js k), ("values", jts v)]
+        | .week n k ds => J.obj [("kind", J.str "week"), ("name", js n), ("type", js k), ("days", J.arr (ds.map js))]
+        | .year n k ds ms ws => J.obj [("kind", J.str "year"), ("name", js n), ("type", js k), ("days", J.arr (ds.map J.ofNat)), ("months", J.arr (ms.map J.ofNat)),
+            ("weeks", J.arr (ws.map js))]))),
+    ("space_conditions", J.arr (d.spaceConds.map js)), ("system_conditions", J.arr (d.systemConds.map js)), ("meta", J.arr (d.metaTypes.map js))]
+end DataIO
+
+/-- op `bdldata`: `Data::new(text)`, the typed elements -/
+def opBdlData (req : J) : J :=
+  let text := match req.get? "text" with | some (J.str s) => s | _ => ""
+  match BdlData.dataNew text.toList with
+  | .ok d => J.obj [("ok", DataIO.dataJ d)]
+  | .err e => J.obj [("err", J.str e)]
+  | .panic p => J.obj [("panic", J.str p)]
+
+/-- op `verdict`: blocks → typed elements → conversion skeleton on a BDL text (no catalogue) -/
+def opVerdict (req : J) : J :=
+  let text := match req.get? "text" with | some (J.str s) => s | _ => ""
+  J.obj [("v", J.str (match Pipeline.verdict text.toList with | .converted => "converted" | .rejected => "rejected" | .crashed => "crashed"))]
+
 /-- op `occupancy`: yearly occupied time and mean internal load -/
 def opOccupancy (m : Model) : J :=
   J.obj [("hours_in_use", J.ofNat (hoursInUse m)), ("average_load", jr (averageLoad (Fns.approx 0) m)),
@@ -493,6 +551,8 @@ def handle (line : String) : String :=
       | some (J.str "skelconvert") => opSkelConvert req
       | some (J.str "placement") => opPlacement req
       | some (J.str "kyg") => opKyg req
+      | some (J.str "bdldata") => opBdlData req
+      | some (J.str "verdict") => opVerdict req
       | some (J.str "tbl") => opTbl req
       | some (J.str "indicators") => withModel req (opIndicators req)
       | some (J.str "classify") => opClassify req
